@@ -375,6 +375,10 @@ func (m *fullMon) c08PodCreate(call *APICall, pod *corev1.Pod) {
 			return
 		}
 	}
+	if jt != nil && jt.killRevoked != "" {
+		m.v("C12/create-after-kill-passed", "Pod %s created for Job %s after its kill timestamp had passed (%s)", pod.Name, cur.Name, jt.killRevoked)
+		return
+	}
 	if rj.Spec.KillTimestamp != nil {
 		m.v("C08/create-after-kill", "Pod %s created for Job %s which has a kill timestamp (%s) in the version the controller read", pod.Name, cur.Name, fmtT(rj.Spec.KillTimestamp.Time))
 		return
